@@ -173,6 +173,9 @@ func CheckAPI(c APICase) *kit.Violation {
 		if !isPage(rec) && !isSpec(rec) {
 			return kit.Failf("NOT-ANSWERED GET %q is the page's and the spec's path, but the answer is %d %q\n%s", uiDoc, rec.Code, rec.Header().Get("Content-Type"), c.brief())
 		}
+	} else if !absolute && isSpec(rec) {
+		// a relative spec reference: where the document lives is outside the statement, and here it lives on the
+		// page's own path; as above, the statement does not say which of the two wins
 	} else {
 		if !isPage(rec) {
 			return kit.Failf("NOT-ANSWERED GET %q is the page's document path, but the answer is %d %q\n%s", uiDoc, rec.Code, rec.Header().Get("Content-Type"), c.brief())
